@@ -25,8 +25,8 @@ ASSUMPTIONS = [
     "ASCII '~' in spec text stands for U+00B7",
 ]
 
-QUICK = ["nest_q", "counts_q", "hyd_q", "decor_q", "prefix2_q", "symsuf", "digits"]
-THOROUGH = ["nest_t", "counts_t", "hyd_t", "decor_t", "prefix2_t", "symsuf", "digits"]
+QUICK = ["nest_q", "counts_q", "hyd_q", "decor_q", "prefix2_q", "symsuf", "digits", "near"]
+THOROUGH = ["nest_t", "counts_t", "hyd_t", "decor_t", "prefix2_t", "symsuf", "digits", "near"]
 
 ARROWS = {
     "string": {"Reaction": "->", "Equilibrium": "="},
